@@ -18,6 +18,33 @@ from harness import compat  # noqa: F401
 from harness.core import Ctx, Machinery, Violation, finish
 
 LEVEL = 'exploration'
+# token types of lark's python grammar that tranp's node model has no class for (binary / octal / imaginary literals)
+OUTSIDE_SUBSET_TERMINALS: set[str] = set()
+
+
+def terminal_names(entry) -> set[str]:
+	"""names of the token entries of a tree"""
+	if entry.is_terminal:
+		return {entry.name}
+	res: set[str] = set()
+	if entry.has_child:
+		for child in entry.children:
+			res |= terminal_names(child)
+	return res
+
+
+def kept_terminals() -> set[str]:
+	"""the token types the grammar can leave in a tree: terminals lark does not filter out, and every terminal of a rule that keeps all its tokens"""
+	from harness.tranp_env import Env, enter_scratch
+	from rogw.tranp.syntax.ast.parser import SyntaxParser
+	enter_scratch('verif-c15-')
+	lk = Env().get(SyntaxParser).dirty_get_origin()
+	kept = set()
+	for r in lk.rules:
+		for sym in r.expansion:
+			if sym.is_term and (r.options.keep_all_tokens or not getattr(sym, 'filter_out', False)):
+				kept.add(str(sym.name))
+	return kept
 
 
 def compare_entries(a, b, path: str, out: list) -> int:
@@ -62,6 +89,7 @@ def _check_programs(args) -> dict:
 	skipped = []
 	entries = 0
 	nodes = 0
+	terminals: set[str] = set()
 	for label, program in programs:
 		try:
 			env = Env(sources={'vm_case': program})
@@ -74,6 +102,7 @@ def _check_programs(args) -> dict:
 					skipped.append(label)  # outside tranp's grammar: there is no tree to store
 					continue
 				raise
+			terminals |= terminal_names(fresh)
 			data = json.loads(json.dumps(Serialization.dumps(fresh.source), separators=(',', ':')))
 			restored = EntryOfLark(Serialization.loads(data))
 			diffs: list[str] = []
@@ -93,7 +122,7 @@ def _check_programs(args) -> dict:
 				failures.append({'clause': 'NodesIdentical', 'detail': f'{label}: node {key}: fresh {t1.get(key)} vs restored {t2.get(key)}', 'text': program, 'kind': (t1.get(key) or t2.get(key))[0]})
 		except Exception as e:
 			failures.append({'clause': f'crash:{type(e).__name__}', 'detail': f'{label}: {type(e).__name__}: {str(e)[:160]}', 'text': program, 'kind': 'crash'})
-	return {'failures': failures, 'entries': entries, 'nodes': nodes, 'skipped': skipped}
+	return {'failures': failures, 'entries': entries, 'nodes': nodes, 'skipped': skipped, 'terminals': sorted(terminals)}
 
 
 def _check_real(module_path: str) -> dict:
@@ -149,12 +178,33 @@ def run(ctx: Ctx) -> int:
 	if len(layouts) < 5000:
 		raise Machinery(f'TokLayout emitted {len(layouts)} texts only')
 	programs += [(f'layout:{i}', t) for i, t in enumerate(layouts[::(12 if quick else 1)])]
+	# one small program per token type that the programs above do not contain (see the vacuity guard below)
+	programs += [(f'terminal:{i}', t) for i, t in enumerate([
+		'a = 1\na *= 2\na @= 2\na /= 2\na %= 2\na &= 2\na |= 2\na ^= 2\na <<= 2\na >>= 2\na **= 2\na //= 2\n',
+		'b = 1 in [1]\nc = b is None\nd = b is not None\ne = 1 not in [2]\n',
+		'f = 1 <> 2\n',
+		'g = 6 / 3\n',
+		'h = 0x1F + 0XaB + 0x_ff\n',
+		'match = 1\ncase = 2\nn = match + case\n',
+		'def k(match: str, case: int) -> str:\n\treturn match\n',
+		'o = p.match(q).case\n',
+		"from typing import ParamSpec, TypeVar, TypeVarTuple\n\nT = TypeVar('T')\nP = ParamSpec('P')\nTs = TypeVarTuple('Ts')\n",
+		'i = 0b101\n',
+		'j = 0o17\n',
+		'z = 2j\n',
+	])]
 	nproc = 16
 	from harness import real_modules
 	modules = real_modules.QUICK if quick else real_modules.TRANSPILE_OK
 	with ProcessPoolExecutor(max_workers=nproc) as ex:
 		r1 = list(ex.map(_check_programs, [(programs[i::nproc],) for i in range(nproc)]))
 		r2 = list(ex.map(_check_real, modules))
+	# vacuity guard: every token type the grammar can leave in a tree occurs in some program (a token type that never
+	# occurs is never stored and restored)
+	seen_terminals = {t for r in r1 for t in r.get('terminals', [])}
+	missing_terminals = sorted(kept_terminals() - seen_terminals - OUTSIDE_SUBSET_TERMINALS)
+	if missing_terminals:
+		raise Machinery(f'no program holds a token of type {missing_terminals}')
 	failures = [f for r in r1 + r2 for f in r['failures']]
 	entries = sum(r['entries'] for r in r1 + r2)
 	nodes = sum(r['nodes'] for r in r1 + r2)
